@@ -24,6 +24,7 @@ package main
 
 import (
 	"fmt"
+	"math"
 	"sort"
 	"strings"
 	"sync/atomic"
@@ -112,13 +113,28 @@ func merge(r *common.Run, shards []*shard) {
 // ---------------------------------------------------------------------------------------------
 // independent definitions on []rune
 
+// extreme non-negative arguments ("beyond the rune count" has no upper end)
+var extremes = []int{math.MaxInt32, math.MaxInt/2 + 1, math.MaxInt - 1, math.MaxInt}
+
+// argRange lists from..N+2 and, for the rune-index arguments, the extremes.
+func argRange(N, from int) []int {
+	var out []int
+	for v := from; v <= N+2; v++ {
+		out = append(out, v)
+	}
+	if from <= 0 && N <= 4 { // the extremes multiply the tuple count: on the short texts only
+		out = append(out, extremes...)
+	}
+	return out
+}
+
 func subWant(rs []rune, start, length int) string {
 	n := len(rs)
 	if start >= n {
 		return ""
 	}
 	end := n
-	if length >= 0 && start+length < n {
+	if length >= 0 && length < n-start { // no overflow for huge lengths
 		end = start + length
 	}
 	return string(rs[start:end])
@@ -342,8 +358,8 @@ func checkText(sh *shard, idx int64, s string) {
 		}
 	}
 	// Sub
-	for start := 0; start <= N+2; start++ {
-		for length := -1; length <= N+2; length++ {
+	for _, start := range argRange(N, 0) {
+		for _, length := range argRange(N, -1) {
 			ev++
 			// non-trivial: a proper cut of a text with a multi-byte rune / invalid byte
 			if multi && start < N && length != 0 && !(start == 0 && (length == -1 || length >= N)) {
@@ -359,10 +375,10 @@ func checkText(sh *shard, idx int64, s string) {
 	// Mask
 	for _, mask := range masks {
 		mrs := []rune(mask)
-		for start := 0; start <= N+2; start++ {
-			for end := 0; end <= N+2; end++ {
+		for _, start := range argRange(N, 0) {
+			for _, end := range argRange(N, 0) {
 				ev++
-				if multi && start+end < N {
+				if multi && start < N && end < N && start+end < N {
 					nt++
 				}
 				mask, start, end := mask, start, end
@@ -371,7 +387,7 @@ func checkText(sh *shard, idx int64, s string) {
 				if !ok || !valid || mask == "" {
 					continue // empty mask / invalid text: absence of panics only
 				}
-				if start+end < N {
+				if start < N && end < N && start+end < N {
 					// runes [start, N-end) are replaced: one mask rune each, or a multi-rune mask once
 					var mid string
 					if len(mrs) == 1 {
@@ -403,7 +419,7 @@ func checkText(sh *shard, idx int64, s string) {
 		}
 	}
 	// SubByDisplay
-	for limit := 0; limit <= 2*N+2; limit++ {
+	for _, limit := range append(argRange(2*N, 0), extremes...) {
 		ev++
 		if multi && limit >= 1 && limit < len(s) {
 			nt++
